@@ -164,6 +164,13 @@ func main() {
 			}
 			fmt.Printf("selftest %s: %d variants applied, %d breaking detected, %d/%d behaviour-preserving silent, %d stale, %d not statically detectable (documented)\n", id, st.Applied, st.Detected, st.NegativeSilent, st.Negative, len(st.Stale), len(st.Undetectable))
 		}
+		if kf != nil {
+			for _, e := range kf.Entries {
+				if e.Kind == "finding-unchecked" && e.Property == id {
+					r.Note("recorded defect of this property that no static rule decides (confirmed by %s): %s", e.Rule, e.Key)
+				}
+			}
+		}
 		o := r.finish(kf)
 		wall := time.Since(t1).Seconds() + loadSecs
 		if err := r.writeEvidence(*out, *tier, seed, wall, o, extra, def.Explanation); err != nil {
@@ -185,6 +192,15 @@ func main() {
 		fmt.Printf("%s: %d obligations, %d discharged, %d known findings, %d violations\n", id, len(r.Obls), nd, len(o.Known), len(o.Violations))
 		for _, k := range o.Known {
 			fmt.Printf("KNOWN-FINDING: property=%s %s | %s | %s | %s\n", id, k.Rule, k.Key, k.Pos, k.Detail)
+		}
+		// defects of the property that were confirmed by running code (probes/) and that no static rule decides:
+		// listed for the record; they suppress nothing and are not re-detected by this check
+		if kf != nil {
+			for _, e := range kf.Entries {
+				if e.Kind == "finding-unchecked" && e.Property == id {
+					fmt.Printf("KNOWN-FINDING: property=%s (confirmed by a probe, not decided statically) %s | %s\n", id, e.Key, e.What)
+				}
+			}
 		}
 		for _, v := range o.Violations {
 			fmt.Printf("  %s: [%s] %s | %s\n      %s\n", v.Verdict, v.Rule, v.Key, v.Pos, v.Detail)
